@@ -4,7 +4,10 @@ package harness
 // in addition every concurrent result must equal the result of the same script run alone on a fresh node.
 
 import (
+	"context"
 	"fmt"
+	"github.com/ipfs/go-unixfsnode/hamt"
+	"github.com/ipld/go-ipld-prime"
 	"io"
 	"os"
 	"runtime"
@@ -19,6 +22,9 @@ import (
 	"github.com/ipld/go-ipld-prime/node/basicnode"
 	"pgregory.net/rapid"
 )
+
+// c17LS is the link system of the current case (read-only while the goroutines run).
+var c17LS *ipld.LinkSystem
 
 type c17Op struct {
 	Kind string
@@ -88,6 +94,12 @@ func c17RunScript(n datamodel.Node, script []c17Op) []string {
 				}
 				c, _ := linkOf(v)
 				out[i] = c.String()
+			case "attempt-shard":
+				// narrowing an already reified directory to the shard type, as a request handler with its own context would
+				ctx, cancel := context.WithCancel(context.Background())
+				sh, err := hamt.AttemptHAMTShardFromNode(ctx, n, c17LS)
+				cancel()
+				out[i] = fmt.Sprintf("%v/%v", sh != nil, err)
 			case "length":
 				out[i] = fmt.Sprint(n.Length())
 			case "bytes":
@@ -121,13 +133,21 @@ const c17Rule = "case = shared reified node (sharded directory with cold cache /
 func TestC17_P_ConcurrentReads(t *testing.T) {
 	ev := newEvid(t, c17Rule)
 	rapid.Check(t, func(t *rapid.T) {
-		kind := rapid.SampledFrom([]string{"hamt-cold", "hamt-cold", "hamt-warm", "file", "file-oldstyle", "hamt-cold-faulty"}).Draw(t, "kind")
+		kind := rapid.SampledFrom([]string{"hamt-cold", "hamt-cold", "hamt-warm", "file", "file-oldstyle", "hamt-cold-faulty", "file-wide"}).Draw(t, "kind")
 		st := NewStore()
 		var root cid.Cid
 		var names []string
 		var tree *ShardNode
 		var content []byte
-		if kind == "file" || kind == "file-oldstyle" {
+		if kind == "file-wide" {
+			// one node with several hundred links (a width above the default, or another writer's layout)
+			content = lcgBytes(rapid.IntRange(260, 700).Draw(t, "wideLen"), 9, 0)
+			var err error
+			root, _, err = buildFile(st, content, "size-1", 1000)
+			if err != nil {
+				t.Fatalf("harness: %v", err)
+			}
+		} else if kind == "file" || kind == "file-oldstyle" {
 			var fc *fileCase
 			if kind == "file" {
 				fc = genFileDAG(t, 20, 300)
@@ -169,7 +189,7 @@ func TestC17_P_ConcurrentReads(t *testing.T) {
 			touched[i] = map[cid.Cid]bool{}
 			for j := rapid.IntRange(1, 12).Draw(t, "ops"); j > 0; j-- {
 				var op c17Op
-				if kind == "file" || kind == "file-oldstyle" {
+				if strings.HasPrefix(kind, "file") {
 					switch rapid.IntRange(0, 2).Draw(t, "fop") {
 					case 0:
 						op = c17Op{Kind: "bytes"}
@@ -178,7 +198,9 @@ func TestC17_P_ConcurrentReads(t *testing.T) {
 						op = c17Op{Kind: "read", A: a, B: int64(rapid.IntRange(0, 40).Draw(t, "b"))}
 					}
 				} else {
-					switch rapid.IntRange(0, 6).Draw(t, "dop") {
+					switch rapid.IntRange(0, 7).Draw(t, "dop") {
+					case 7:
+						op = c17Op{Kind: "attempt-shard"}
 					case 6:
 						op = c17Op{Kind: "native-iterate"}
 						for _, c := range tree.ShardsPreOrder() {
@@ -211,6 +233,7 @@ func TestC17_P_ConcurrentReads(t *testing.T) {
 			}
 		}
 		ls := st.LinkSystem()
+		c17LS = ls
 		fresh := func() datamodel.Node {
 			n, err := loadReified(ls, root, "unixfs")
 			if err != nil {
